@@ -1594,6 +1594,11 @@ def m_iter_adapter(ctx, args):
         if inner[0] == "rev":
             return ("iter", inner[1])           # rev().rev()
         return ("iter", ("rev", inner))
+    if name == "skip" and a[0] == "iter" and a[1][0] in ("refs", "vals") and len(args) > 1 and args[1][0] == "int" and args[1][1] >= 0:
+        # `xs.iter().skip(k)` visits what `xs[k..].iter()` visits
+        if args[1][1] == 0:
+            return a
+        return ("iter", (a[1][0], ("slice_of", a[1][1], ("int", args[1][1]), ("end",))))
     if a[0] == "iter":
         return ("iter", ("adapter", name, a[1], tuple(args[1:])))
     return ("call", ctx.oq, tuple(args))
